@@ -1528,6 +1528,10 @@ pub fn check_limit_alloc(ctx: &Ctx, c: &LimitCase, counting: bool) -> PResult {
 pub struct HsCase {
 	pub scenario: String,
 	pub version: u32,
+	/// scenario "self": outbound handshake attempts the instance has made before it dials itself
+	/// (the refusal rests on remembering the nonces of its own recent Hand messages)
+	#[serde(default)]
+	pub prior: u32,
 }
 
 fn write_frame(s: &mut TcpStream, t: u8, body: &[u8]) -> std::io::Result<()> {
@@ -1645,6 +1649,15 @@ pub fn check_handshake(ctx: &Ctx, c: &HsCase, counting: bool) -> PResult {
 			let a = Handshake::new(g1, P2PConfig::default());
 			let b = Handshake::new(if c.scenario == "genesis-accept" { g2 } else { g1 }, P2PConfig::default());
 			let acceptor = if c.scenario == "self" { &a } else { &b };
+			// earlier outbound attempts of the dialling instance (to peers that hang up at once)
+			for _ in 0..c.prior {
+				let (mut x, y) = plain_pair()?;
+				let addr = PeerAddr(x.local_addr().map_err(harness("addr"))?);
+				let _ = y.shutdown(Shutdown::Both);
+				drop(y);
+				let _ = x.set_read_timeout(Some(Duration::from_millis(200)));
+				let _ = a.initiate(caps, td, addr, &mut x);
+			}
 			let (mut ca, mut cb) = plain_pair()?;
 			let me = PeerAddr(ca.local_addr().map_err(harness("addr"))?);
 			let (ra, rb) = std::thread::scope(|sc| {
@@ -1677,7 +1690,7 @@ pub fn check_handshake(ctx: &Ctx, c: &HsCase, counting: bool) -> PResult {
 				_ => {
 					match rb {
 						Err(grin_p2p::Error::PeerWithSelf) => {}
-						other => fail!("handshake-self-accepted", "a node accepting its own Hand returned {:?}", other.map(|i| i.version)),
+						other => fail!("handshake-self-accepted", "a node accepting its own Hand (after {} earlier outbound handshake attempts) returned {:?}", c.prior, other.map(|i| i.version)),
 					}
 					ensure!(ra.is_err(), "handshake-self-accepted", "the initiating side completed a handshake with itself");
 				}
@@ -1688,19 +1701,29 @@ pub fn check_handshake(ctx: &Ctx, c: &HsCase, counting: bool) -> PResult {
 	if counting {
 		ctx.ev.eval();
 		ctx.ev.class(&format!("handshake:{}", c.scenario));
+		if c.scenario == "self" {
+			ctx.ev.class(&format!("handshake:self_after_prior_outbound_attempts:{}", c.prior));
+		}
 		ctx.ev.sample(&format!("handshake:{}", c.scenario), || json!(c));
 	}
 	Ok(())
 }
 
-fn handshake_table() -> Vec<HsCase> {
+fn handshake_table(quick: bool) -> Vec<HsCase> {
 	let mut v = vec![];
 	for ver in [1u32, 2, 3, 999, 1000, 1001, u32::MAX, 0] {
-		v.push(HsCase { scenario: "accept".into(), version: ver });
-		v.push(HsCase { scenario: "initiate".into(), version: ver });
+		v.push(HsCase { scenario: "accept".into(), version: ver, prior: 0 });
+		v.push(HsCase { scenario: "initiate".into(), version: ver, prior: 0 });
 	}
 	for s in ["real-real", "genesis-accept", "genesis-initiate", "self"] {
-		v.push(HsCase { scenario: s.into(), version: 1000 });
+		v.push(HsCase { scenario: s.into(), version: 1000, prior: 0 });
+	}
+	// the node dials itself after a history of outbound attempts (around and beyond any plausible
+	// size of the memory of its own nonces)
+	// (each attempt costs ~150 ms: the handshake writes through the rate-limited message writer)
+	let priors: &[u32] = if quick { &[1, 100, 101, 140] } else { &[1, 2, 50, 99, 100, 101, 128, 140, 255, 256, 257, 300, 1000] };
+	for prior in priors {
+		v.push(HsCase { scenario: "self".into(), version: 1000, prior: *prior });
 	}
 	v
 }
@@ -2027,8 +2050,8 @@ pub fn run(ctx: &Ctx) -> HResult<()> {
 	}
 
 	// ---- handshake
-	let hs = handshake_table();
-	let fails = par_for(&hs, 4, |c| check_handshake(ctx, c, true));
+	let hs = handshake_table(ctx.quick());
+	let fails = par_for(&hs, 16, |c| check_handshake(ctx, c, true));
 	settle(ctx, "handshake", fails.into_iter().map(|(i, f)| (serde_json::to_value(&hs[i]).unwrap(), f)).collect())?;
 
 	ev.extra("code_limit_rule", json!("MsgHeaderWrapper::read refuses msg_len > 4 * max_msg_size(type) (unknown types: 4 * max_block_size): the enforced boundary is 4x the nominal per-type maximum"));
